@@ -88,6 +88,15 @@ func newWorld(r *rand.Rand, o worldOpts) *World {
 			w.Basics[nbas-1] = v
 		}
 	}
+	concat := nrec >= 2 && r.Intn(6) == 0
+	if concat {
+		// two recipes named N and N+"1": with quantities 15 and 5 the strings N+"15" coincide
+		if cand := w.Recipes[0] + "1"; !inList(all, cand) {
+			w.Recipes[1] = cand
+		} else {
+			concat = false
+		}
+	}
 	w.Book = gen.RandomBook(r, gen.BookOpts{Recipes: nrec, Basics: nbas, MaxDepth: 1 + r.Intn(4), Exact: o.Exact, RecipeNames: w.Recipes, BasicNames: w.Basics, NoEmpty: o.NoEmpty, NoZero: o.NoZero, Wide: wide})
 	foods := append(append(append([]string{}, w.Recipes...), w.Recipes...), w.Basics...)
 	foods = append(foods, w.Unknown...)
@@ -101,6 +110,12 @@ func newWorld(r *rand.Rand, o worldOpts) *World {
 			}
 		}
 	}
+	if concat && len(w.Log) > 0 {
+		d := r.Intn(len(w.Log))
+		w.Log[d].Ents = append(w.Log[d].Ents, gen.Ent{Name: w.Recipes[0], Val: gen.N("15")})
+		d2 := r.Intn(len(w.Log))
+		w.Log[d2].Ents = append(w.Log[d2].Ents, gen.Ent{Name: w.Recipes[1], Val: gen.N("5")})
+	}
 	w.Res = model.Resolve(w.Book)
 	w.Abs = model.AbsPaths(w.Book)
 	var st *gen.Style
@@ -110,6 +125,15 @@ func newWorld(r *rand.Rand, o worldOpts) *World {
 	w.BookText = gen.RenderBook(w.Book, st)
 	w.LogText = gen.RenderLog(w.Log, o.Layout, st)
 	return w
+}
+
+func inList(xs []string, x string) bool {
+	for _, y := range xs {
+		if y == x {
+			return true
+		}
+	}
+	return false
 }
 
 // caseVariant flips the case of the ASCII letters of a name (identity if it has none).
